@@ -198,7 +198,7 @@ def identityu_tla(u, repaired=True):
     vals = u["values"]
     recs = []
     for v in vals:
-        r = {"k": v["k"], "a": [], "b": [], "imm": False, "num": "", "enc": [], "small": 0, "hasSmall": False, "ref": []}
+        r = {"k": v["k"], "a": [], "b": [], "imm": False, "num": "", "enc": [], "dec": [], "small": 0, "hasSmall": False, "ref": []}
         k = v["k"]
         if k == "node":
             r["a"], r["b"] = list(untok(v["t"])), list(untok(v["i"]))
@@ -209,6 +209,7 @@ def identityu_tla(u, repaired=True):
                 r["num"] = instant(v)
                 n = unixnano(int(v["sec"]), v.get("ns", 0))
                 r["enc"] = varint(n)
+                r["dec"] = list(str(n).encode())     # the decimal text of UnixNano (a variant encoding, see Identity.tla)
                 if abs(n) < 2 ** 29:
                     r["small"], r["hasSmall"] = n, True
         elif k == "lit":
